@@ -116,8 +116,8 @@ theorem vw_get1 (c : SCfg) (s : SState) (t : Nat) (ask : Option Nat) (ns nc : Na
     (hc : (stepL c s (.get1 t ask ns nc)).dis = []) :
     (s.phase = .loopTop ∨ s.phase = .draining) ∧ vw (stepL c s (.get1 t ask ns nc)) = { vw s with phase := .afterGet1 } := by
   cases hp : s.phase <;> cases ht : s.tripDue <;> cases h1 : (ask == s.slots.ask) <;>
-    cases h2 : (ns == s.q.serial.length && nc == s.q.conc.length) <;>
-    simp [stepL, SState.inPhase, SState.note, hp, ht, h1, h2, hs, vw] at hc ⊢
+    cases h2 : (ns == s.q.serial.length && nc == s.q.conc.length) <;> cases h3 : s.notifs.isEmpty <;>
+    simp [stepL, SState.inPhase, SState.note, hp, ht, h1, h2, h3, hs, vw] at hc ⊢
 
 theorem vw_idleYield (c : SCfg) (s : SState) (hs : s.dis = []) (hc : (stepL c s .idleYield).dis = []) :
     s.phase = .idle1 ∧ vw (stepL c s .idleYield) = { vw s with phase := .idle2 } := by
